@@ -210,7 +210,7 @@ def main():
         bad = [m for m in selftest if m.get('as_expected') is False]
         if bad: undecided.append(('selftest', 'mutation self-test: %s not as expected' % [m['mutant'] for m in bad]))
     bounded_res = None
-    if a.tier == 'thorough' and not violations and prop in ('C05', 'C13', 'C16'):
+    if a.tier == 'thorough' and not violations and prop in ('C05', 'C10', 'C13', 'C16'):
         from vx import bounded
         bounded_res = bounded.run(a.repo, os.path.join(ROOT, 'build'))
         if bounded_res['status'] == 'violation':
